@@ -209,3 +209,44 @@ Proof.
   rewrite from2bit_loop by exact Hs.
   destruct (all_some (map from2bit_byte src)); reflexivity.
 Qed.
+
+(* ---- ReverseComplementString (strings.Builder as the bytes written so far) ------------------- *)
+Theorem imp_ReverseComplementString s : all_bytes s ->
+  imp_sequtil_ReverseComplementString s = of_outcome (rc_string s).
+Proof.
+  intros Hs. unfold imp_sequtil_ReverseComplementString, rc_string, rc. cbv zeta.
+  rewrite (go_for_down_elems s (fun x b => go_call (imp_sequtil_complementByte x) (fun c => Next (b ++ [c])))).
+  rewrite rc_loop by (apply Forall_rev'; exact Hs).
+  destruct (all_some (map comp (rev s))); reflexivity.
+Qed.
+
+(* ---- AminoName: all 256 bytes ------------------------------------------------------------------- *)
+Definition names_eqb (a b : res unit (list N * list N)) : bool :=
+  match a, b with
+  | Ret (x1, y1), Ret (x2, y2) => beqb x1 x2 && beqb y1 y2
+  | Panics, Panics => true
+  | _, _ => false
+  end.
+
+Lemma beqb_true_eq a b : beqb a b = true -> a = b.
+Proof.
+  revert b. induction a as [|x a IH]; intros [|y b] H; cbn [beqb] in H; try discriminate; [reflexivity|].
+  apply andb_true_iff in H. destruct H as [H1 H2]. apply N.eqb_eq in H1. subst. f_equal. apply IH. exact H2.
+Qed.
+
+Lemma names_eqb_eq a b : names_eqb a b = true -> a = b.
+Proof.
+  destruct a as [| |[x1 y1]| |], b as [| |[x2 y2]| |]; cbn [names_eqb]; try discriminate; try reflexivity.
+  intros H. apply andb_true_iff in H. destruct H as [H1 H2].
+  apply beqb_true_eq in H1. apply beqb_true_eq in H2. subst. reflexivity.
+Qed.
+
+Lemma aminoName_sweep :
+  forallb (fun b => names_eqb (imp_sequtil_AminoName b) (of_outcome (amino_name b))) bytes256 = true.
+Proof. vm_compute. reflexivity. Qed.
+
+Theorem imp_AminoName b : is_byte b -> imp_sequtil_AminoName b = of_outcome (amino_name b).
+Proof.
+  intros Hb. apply names_eqb_eq.
+  exact (proj1 (forallb_forall _ _) aminoName_sweep b (in_bytes256 b Hb)).
+Qed.
